@@ -1694,6 +1694,13 @@ class Evaluator:
                     raise
                 finally:
                     if armed and not done[0]: s._try_depth -= 1
+            elif isinstance(st, ast.With) and len(st.items) == 1 and isinstance(st.items[0].context_expr, ast.Call) \
+                    and ast.unparse(st.items[0].context_expr.func).split('.')[-1] == 'suppress' and st.items[0].optional_vars is None:
+                # with suppress(E1, E2): body   ==   try: body  except (E1, E2): pass
+                ce_ = st.items[0].context_expr
+                tr_ = ast.Try(body=list(st.body), handlers=[ast.ExceptHandler(type=ast.Tuple(elts=list(ce_.args), ctx=ast.Load()), name=None, body=[ast.Pass()])], orelse=[], finalbody=[])
+                ast.copy_location(tr_, st); ast.fix_missing_locations(tr_)
+                return s.block([tr_] + rest, env, mod, depth)
             elif isinstance(st, ast.With):
                 for it in st.items:
                     if it.optional_vars is not None: s.assign(it.optional_vars, s.ev(it.context_expr, env, mod, depth), env, mod, depth)
@@ -1756,6 +1763,11 @@ class Evaluator:
             nm, attr = e.func.value.id, e.func.attr
             cur = s.lookup(nm, env, mod)
             args = [s.ev(a, env, mod, depth) for a in e.args]
+            if attr == 'update' and e.keywords and all(k.arg is not None for k in e.keywords):
+                # d.update(k=v) is d.update({'k': v})
+                kwd = {k.arg: s.ev(k.value, env, mod, depth) for k in e.keywords}
+                args = ([{**args[0], **kwd}] if len(args) == 1 and isinstance(args[0], dict) else args + [kwd]) if args else [kwd]
+                if len(args) == 2 and isinstance(cur, dict) and isinstance(args[0], dict): args = [{**args[0], **args[1]}]
             if attr == 'append' and isinstance(cur, list) and len(args) == 1:
                 s.rebind(nm, cur + [args[0]], env); return
             if attr == 'update' and isinstance(cur, dict) and len(args) == 1 and isinstance(args[0], dict):
@@ -1763,7 +1775,17 @@ class Evaluator:
             if attr in ('append', 'remove', 'sort', 'extend', 'clear', 'insert', 'pop', 'update', 'add', 'discard', 'reverse', 'setdefault'):
                 s.mutations.append((nm, attr, args))
                 s.rebind(nm, Opq('mutated', attr, cur, *args), env); return
+        if isinstance(e, ast.Call) and isinstance(e.func, ast.Name) and e.func.id == 'setattr' and len(e.args) == 3 and not e.keywords \
+                and getattr(s.lookup('setattr', env, mod), 'kind', None) == 'builtin':
+            nm = s.ev(e.args[1], env, mod, depth)
+            if isinstance(nm, str):
+                s.store_attr(s.ev(e.args[0], env, mod, depth), nm, s.ev(e.args[2], env, mod, depth)); return
         return s.ev(e, env, mod, depth)
+
+    def store_attr(s, base, attr, val):
+        if isinstance(base, Rec): base.f[attr] = val
+        elif isinstance(base, Poly) and base.as_atom() is not None:
+            s.stores[(base.as_atom(), attr)] = val
 
     def rebind(s, name, val, env):
         e = env
@@ -2137,10 +2159,7 @@ class Evaluator:
             else:
                 for i, x in enumerate(t.elts): s.assign(x, s.getitem(val, Poly.const(i)), env, mod, depth)
         elif isinstance(t, ast.Attribute):
-            base = s.ev(t.value, env, mod, depth)
-            if isinstance(base, Rec): base.f[t.attr] = val
-            elif isinstance(base, Poly) and base.as_atom() is not None:
-                s.stores[(base.as_atom(), t.attr)] = val
+            s.store_attr(s.ev(t.value, env, mod, depth), t.attr, val)
         elif isinstance(t, ast.Subscript) and s.array_store(t, val, env, mod, depth):
             pass
         elif isinstance(t, ast.Subscript):
@@ -2216,6 +2235,9 @@ def _match_as_ifs(st):
     def test(pat):
         if isinstance(pat, ast.MatchValue): return ast.Compare(left=st.subject, ops=[ast.Eq()], comparators=[pat.value])
         if isinstance(pat, ast.MatchSingleton): return ast.Compare(left=st.subject, ops=[ast.Is()], comparators=[ast.Constant(value=pat.value)])
+        if isinstance(pat, ast.MatchSequence) and all(isinstance(p_, ast.MatchValue) for p_ in pat.patterns):
+            return ast.Compare(left=ast.Call(func=ast.Name(id='list', ctx=ast.Load()), args=[st.subject], keywords=[]), ops=[ast.Eq()],
+                               comparators=[ast.List(elts=[p_.value for p_ in pat.patterns], ctx=ast.Load())])
         if isinstance(pat, ast.MatchOr):
             ts = [test(p_) for p_ in pat.patterns]
             return None if any(t is None for t in ts) else ast.BoolOp(op=ast.Or(), values=ts)
